@@ -48,7 +48,9 @@ def _scene_spec(T, seed, f32=False):
         shape=[7, 3, 3], faces={"min_x": "pml", "max_x": "pml", **per_yz}, pml=2, eps={"tier": "iso", "pat": "distinct"}, steps=T, seed=seed, dtype="f32" if f32 else "f64",
         sources=[dict(kind="dipole", box=[[3, 4], [1, 2], [1, 2]], polarization=2, source_type="magnetic", wave=W, switch={"fixed_on_time_steps": [0, 1, 2, 4]})],
         detectors=[
-            dict(kind="energy", name="conv", box=[[2, 5], [0, 3], [0, 3]], reduce_volume=True),
+            # convergence detector: O(1e-3) readings (an EnergyDetector reads ~1e-26 J here, whose squares underflow in float32)
+            dict(kind="field", name="conv", box=[[3, 5], [1, 2], [1, 2]], components=["Hz"], reduce_volume=True),
+            dict(kind="energy", name="energy", box=[[2, 5], [0, 3], [0, 3]], reduce_volume=True),
             dict(kind="field", name="probe", box=[[4, 5], [1, 2], [1, 2]], reduce_volume=False),
             dict(kind="phasor", name="acc", box=[[2, 3], [1, 2], [1, 2]], wave_characters=[W]),
         ],
@@ -128,7 +130,7 @@ class _Traj:
         for s in self.snaps:
             E, H = s["E"], s["H"]
             self.energy.append(float(np.sum(0.5 * (np.abs(E) ** 2 / ie + np.abs(H) ** 2 / im))))
-        self.readings = [np.asarray(s["det/conv/energy"])[:, 0] for s in self.snaps]  # readings visible in state t
+        self.readings = [np.asarray(s["det/conv/fields"], dtype=np.float64)[:, 0] for s in self.snaps]  # readings visible in state t
         self.dt = float(sc.config.time_step_duration)
 
     def predicate(self, cond):
@@ -406,6 +408,8 @@ def run_case(case):
     import warnings
 
     import jax
+
+    from mc import scenes  # noqa: F401  (its import pins jax_enable_x64=True; must happen before the toggle below)
 
     if _x64_usable(case):
         _F32 = False
